@@ -27,7 +27,7 @@ from geometer.transformation import TransformationTensor, rotation, translation
 from geometer.utils import det, distinct, is_multiple, matmul, matvec
 
 if TYPE_CHECKING:
-    from typing_extensions import Unpack
+    from typing_extensions import Self, Unpack
 
     from geometer.utils.typing import NDArrayParameters, TensorIndex
 
@@ -61,6 +61,14 @@ class PolytopeTensor(PointLikeTensor, ABC):
 
     def __repr__(self) -> str:
         return f"{self.__class__.__name__}({', '.join(str(v) for v in self.vertices)})"
+
+    def __apply__(self, transformation: TransformationTensor) -> Self:
+        if transformation.free_indices > 0:
+            # the axes of the vertices (and facets) are free indices of a polytope tensor, the collection axes of the
+            # transformations must be aligned with the collection axes in front of them
+            for _ in range(max(self.pdim - 1, 1)):
+                transformation = cast(TransformationTensor, transformation.expand_dims(transformation.free_indices))
+        return super().__apply__(transformation)
 
     @property
     def vertices(self) -> list[PointTensor]:
